@@ -23,10 +23,9 @@ structure Twin (c s : Sys) (ta tb : Tcb) : Prop where
   da : (c.side .A).delivered = (s.side .A).delivered
   db : (c.side .B).delivered = (s.side .B).delivered
 
-/-- the peer B is idle: nothing unsent, nothing unacknowledged -/
+/-- the peer B has nothing unsent (what it has sent has been received — `Steady` — but need not be acknowledged yet) -/
 structure IdleB (ta tb : Tcb) : Prop where
   tbt : tb.outgoing.text = []
-  qb : tb.outgoing.retransmit = []
 
 section
 variable {iss : SideId → Seq}
@@ -148,13 +147,7 @@ theorem phase_twin (s c : Sys) (hg : Good iss s) (ta tb : Tcb) (hs : Steady s ta
     rw [receive_established ta2 a_st]
     rfl
   have hoa' : ta'.outgoing.oneshot = [] := pa.one hamtB
-  have hidle' : IdleB ta' tb' := by
-    refine ⟨by rw [pb.text, hi.tbt]; simp, ?_⟩
-    refine keepOk_empty tb' (hg'.ext.tcb .B tb' hs'.hb).keep ((hg'.conv.full.inv.link .B).snd tb' hs'.hb).1
-      (hg'.sent_lt .B tb' hs'.hb) ?_
-    rcases hs'.b.lastack with h | ⟨h, hl, _⟩
-    · exact h
-    · rw [hoa'] at hl; cases hl
+  have hidle' : IdleB ta' tb' := ⟨by rw [pb.text, hi.tbt]; simp⟩
   refine ⟨s6, c6, ta', tb', ph, hr, hg', hs', hidle', pa, phc, rc06, ?_, h6sa, h6sb⟩
   rw [hrA] at k6a k6da
   exact ⟨by rw [hta']; exact k6a, by rw [htb']; exact k6b, by rw [k6sa, h6sa]; exact tw.sa,
